@@ -137,17 +137,25 @@ impl Prop for C09Prop {
         "C09"
     }
     fn rule(&self) -> String {
-        "Well-formed eval_number expressions over + - * / % ^ pow mod, unary minus, abs sgn, floor ceil round trunc (and ⌊⌋ ⌈⌉), superscripts, n!. Exhaustive: every binary operator x (Integer pool ∪ Float pool ∪ NaN/inf ∪ @ with every placeholder)^2, every unary/rounding form x pool ∪ {k+0.5, k+-0.4, k.49999999999999994 : k=-3..3}, n! for n=0..25, every composition of two unary forms (13 x 13) x pool, and for the operands at the edge of i64 / 2^53 one more Integer step (+1, -1, %10, *3, /3) on top; long chains of 2..512 operands (i64::MAX+1+0+…+(-2): an intermediate overflow must turn the sum into a Float for good; 1e16+1.0+1.0…); random typed trees of depth <=5 beyond. Oracle: typed reference evaluator implementing C09 literally (Integer steps in i128; fits => Integer(exact), variant and value asserted; otherwise Float of the double operation; any Float operand => numeric value of the IEEE operation; rounding functions => numeric value of the rounded integer; Integer exponents outside 0..2^32-1 unspecified). non-trivial = the reference result is a Float/numeric value, or has magnitude >= 2^53, or the input uses a rounding function on a Float; distinct by (input, placeholder).".into()
+        "Well-formed eval_number expressions over + - * / % ^ pow mod, unary minus, abs sgn, floor ceil round trunc (and ⌊⌋ ⌈⌉), superscripts, n!. Exhaustive: every binary operator x (Integer pool ∪ Float pool ∪ NaN/inf ∪ @ with every placeholder)^2, every unary/rounding form x pool ∪ {k+0.5, k+-0.4, k.49999999999999994 : k=-3..3}, n! for n=0..25, every composition of two unary forms (13 x 13) x pool, and for the operands at the edge of i64 / 2^53 one more Integer step (+1, -1, %10, *3, /3) on top; long chains of 2..512 operands (i64::MAX+1+0+…+(-2): an intermediate overflow must turn the sum into a Float for good; 1e16+1.0+1.0…); random typed trees of depth <=5 beyond; after-failures: a set of plain expressions checked right after 1100 consecutive failing calls of one kind on the same thread (lexer, parser and evaluation errors under every operator and function form). Oracle: typed reference evaluator implementing C09 literally (Integer steps in i128; fits => Integer(exact), variant and value asserted; otherwise Float of the double operation; any Float operand => numeric value of the IEEE operation; rounding functions => numeric value of the rounded integer; Integer exponents outside 0..2^32-1 unspecified). non-trivial = the reference result is a Float/numeric value, or has magnitude >= 2^53, or the input uses a rounding function on a Float; distinct by (input, placeholder).".into()
     }
     fn subs(&self, tier: Tier) -> Vec<Sub> {
         vec![
             Sub { name: "binary", kind: SubKind::Enum { count: binary_cases().len() as u64 } },
             Sub { name: "unary", kind: SubKind::Enum { count: unary_cases().len() as u64 } },
             Sub { name: "long", kind: SubKind::Enum { count: super::long::all(true).iter().filter(|x| x.0 == Ev::Num).count() as u64 } },
+            Sub { name: "after-failures", kind: SubKind::Enum { count: (failing_templates(Ev::Num).len() * probe_expressions(Ev::Num).len()) as u64 } },
             Sub { name: "tree", kind: SubKind::Random { cases: tier.pick(600_000, 30_000_000), len: 160 } },
         ]
     }
     fn gen_enum(&self, sub: &str, idx: u64, _tier: Tier) -> Option<Case> {
+        if sub == "after-failures" {
+            // the promised result must still come after many failing calls on the same thread
+            let (ts, ps) = (failing_templates(Ev::Num), probe_expressions(Ev::Num));
+            let mut case = Case::new(Ev::Num, ps[idx as usize % ps.len()].to_string(), Val::NI(5));
+            case.aux = vec![ts.get(idx as usize / ps.len())?.clone()];
+            return Some(case);
+        }
         let s = match sub {
             "binary" => binary_cases().get(idx as usize)?.clone(),
             "long" => super::long::all(true).iter().filter(|x| x.0 == Ev::Num).nth(idx as usize)?.1.clone(),
@@ -165,6 +173,11 @@ impl Prop for C09Prop {
         Some(Case::new(Ev::Num, s, ph))
     }
     fn check(&self, sub: &str, case: &Case, sc: &mut ShardCtx) -> Result<(), Failure> {
+        if sub == "after-failures" {
+            if let Some(t) = case.aux.first() {
+                exhaust(sc, Ev::Num, t, &case.ph);
+            }
+        }
         let e = match accept(Ev::Num, &case.input) {
             Some(e) => e,
             None => {
@@ -203,7 +216,7 @@ impl Prop for C09Prop {
                         let s = grammar::render(x);
                         matches!(refeval::exact_agrees(Ev::Num, x, &ph, &api::eval(Ev::Num, &s, &ph)), Some((false, _)))
                     });
-                    return Err(Failure::new(format!("number/value/{}", hd), format!("{:?}", want), o.show()).with_case(Case { ev: Ev::Num, input: case.input.clone(), ph: ph.clone(), aux: vec![] }));
+                    return Err(Failure::new(format!("number/value/{}", hd), format!("{:?}", want), o.show()).with_case(Case { ev: Ev::Num, input: case.input.clone(), ph: ph.clone(), aux: case.aux.clone() }));
                 }
             }
         }
